@@ -448,7 +448,7 @@ func init() {
 	vh.Register(&vh.Check{
 		ID: "C06", Level: "model_checking",
 		Technique:   "exhaustive enumeration of refusals (endpoint x refusal kind x existing/fresh identity) in every reachable session state up to a depth bound, with a before/after digest of the whole pool and a follow-up acceptance probe",
-		Rule:        "all session histories over {connect host, connect client, keep-alive, peer request, link wallet, tick} up to the depth bound, de-duplicated on the pool digest; in each state 7 endpoints x {bad signature, other key, malformed signature, stale nonce, replayed nonce} x {existing, fresh identity}; refused => digest (nodes, peers, balances, links, stats, registered connections, host call logs) identical and the owner's next request with a smaller fresh nonce accepted; distinct = (endpoint, kind, fresh?, refused?)",
+		Rule:        "all session histories over {connect host, connect client, keep-alive, peer request, link wallet, tick} up to the depth bound, de-duplicated on the pool digest; in each state 7 endpoints x {bad signature, other key, malformed signature, stale nonce, replayed nonce} x {existing, fresh identity}; refused => digest (nodes, peers, balances, links, stats, registered connections, host call logs) identical and the owner's next request with a smaller fresh nonce accepted; distinct = (endpoint, kind, fresh?, refused?); every endpoint's honoured request replayed under up to 9 other spellings of its identity",
 		Assumptions: []string{"memory driver (the refusal path is driver independent up to CheckAndSaveNonce, whose driver behaviour C05 and C12 cover)"},
 		Units: func(tier string) []vh.Unit {
 			var us []vh.Unit
